@@ -61,3 +61,8 @@ def lemma(**kw):
         f._lemma = kw
         return f
     return deco
+
+
+def shaped(x, shape):
+    """Spec form: x with a declared shape (identity when run natively)."""
+    return x
